@@ -52,6 +52,56 @@ def closure_args(facts, body, call):
     return out
 
 
+def positions_idiom(facts, body, deps, blk):
+    """(ok, why, call) when the guarding test is `any` over Cfg::get_non_terminal_positions with a closure that selects the
+    right-hand-side positions by `sy_index() > 0` and compares the name with cfg.st; None when the idiom is not present"""
+    for a, s_, k in deps:
+        if not k or k[0] != "call" or (k[1].path or "").split("::")[-1] not in ("any", "all", "find", "position"):
+            continue
+        call, neg = k[1], k[2]
+        src = operand_term(body, call.args[0]) if call.args else ("unknown",)
+        chain = []
+        hops = 0
+        while src[0] in ("call", "proj") and hops < 8:
+            hops += 1
+            if src[0] == "proj":
+                src = src[1]
+                continue
+            chain.append((src[1].path or "").split("::")[-1])
+            if (src[1].path or "").endswith("Cfg::get_non_terminal_positions"):
+                break
+            src = operand_term(body, src[1].args[0]) if src[1].args else ("unknown",)
+        if "get_non_terminal_positions" not in chain:
+            continue
+        adaptors = set(chain) & PARTIAL
+        cls = closure_args(facts, body, call)
+        thr = None
+        reads_st = False
+        for cl in cls:
+            for bi, si, p, rv, line, mac in cl.assigns():
+                if rv[0] == "bin" and rv[1] in ("Gt", "Ge", "Ne", "Lt", "Le", "Eq"):
+                    ta, tb = operand_term(cl, rv[2]), operand_term(cl, rv[3])
+                    for x, y in ((ta, tb), (tb, ta)):
+                        if x[0] == "call" and (x[1].path or "").endswith("sy_index") and y[0] == "const":
+                            thr = (rv[1] if x is ta else {"Gt": "Lt", "Lt": "Gt", "Ge": "Le", "Le": "Ge"}.get(rv[1], rv[1]), y[2])
+            for bi, kind, p, line in all_places(cl):
+                if any(isinstance(e, list) and e[0] == "f" and e[3] == CFG and e[2] == "st" for e in p[1:]):
+                    reads_st = True
+        if thr is None:
+            return (False, "the closure does not select right-hand-side positions by sy_index()", call)
+        good = thr in (("Gt", 0), ("Ne", 0), ("Ge", 1))
+        if adaptors:
+            return (False, "the positions are filtered or truncated (%s)" % sorted(adaptors), call)
+        if not reads_st:
+            return (False, "the closure does not compare with cfg.st", call)
+        vals = {0} if not neg else {v for v, _t in body.switch_edges(a) if v != 0}
+        if not only_via_edge(body, a, vals, blk):
+            return (False, "the unchanged return is not on the 'not found' edge", call)
+        return (good, "it selects positions with sy_index() %s %s instead of > 0 (position 0 is the left-hand side, 1 the first "
+                "right-hand-side symbol)" % ({"Gt": ">", "Ge": ">=", "Ne": "!=", "Lt": "<", "Le": "<=", "Eq": "=="}[thr[0]], thr[1]), call)
+    return None
+
+
 def reads_rhs_and_start(facts, cg, roots, depth=3):
     """do the bodies reachable (<= depth calls) from roots read right-hand sides and Cfg.st?"""
     seen = set()
@@ -141,6 +191,19 @@ def check(ctx):
                         found = call
             if k and k[0] == "bin" and k[1] in ("Eq", "Ne", "Gt", "Lt", "Le", "Ge"):
                 count_test = True
+        if found is None:
+            # second accepted idiom: cfg.get_non_terminal_positions().iter().any(|(pos, n)| pos.sy_index() > 0 && *n == cfg.st)
+            alt = positions_idiom(facts, body, deps, b)
+            if alt is not None:
+                okalt, why, call = alt
+                ctx.check(okalt, "R12.1", "augment_grammar|unchanged-return-reads-rhs",
+                          "the unchanged return is taken only when no non-terminal position with symbol index > 0 names the start symbol",
+                          "augment_grammar looks for the start symbol among the non-terminal positions, but %s: an occurrence of the "
+                          "start symbol at the excluded right-hand-side position leaves the grammar unaugmented" % why,
+                          where(body, call.line))
+                found = call if okalt else None
+                if not okalt:
+                    continue
         ctx.check(found is not None, "R12.1", "augment_grammar|unchanged-return-reads-rhs",
                   "the unchanged return (bb%d) is taken only on the false edge of a test (%s) whose closure reads "
                   "right-hand sides (Pr::get_r) and compares the name component of Symbol::N" % (b, short(found.path) if found else ""),
@@ -153,6 +216,10 @@ def check(ctx):
         if found is not None:
             src = operand_term(body, found.args[0], through_calls=True) if found.args else ("unknown",)
             whole = src[0] == "path" and bool(src[2]) and src[2][-1] == "pr" and 1 <= src[1] <= body.nargs
+            if not whole and src[0] == "call" and (src[1].path or "").endswith("Cfg::get_non_terminal_positions"):
+                # the helper enumerates the non-terminal occurrences of every production of the grammar it is called on
+                rp = raw_operand_place(body, src[1].args[0]) if src[1].args else None
+                whole = bool(rp) and 1 <= rp[0] <= body.nargs
             ctx.check(whole, "R12.1", "augment_grammar|scan-covers-all-productions",
                       "the right-hand-side test iterates the grammar's whole production list (cfg.pr)",
                       "the right-hand-side test runs on %s, not on the grammar's whole production list cfg.pr: an occurrence of "
